@@ -295,10 +295,17 @@ def check_delivery(world, rec):
         # any other row touching the objective column?  (rows t - m <= 0 beyond the declared metrics)
         if len(metric_items) != nmet:
             world.violation("O-DELIVERY", "metric-row-count", {"rows": len(metric_items), "metrics": nmet})
-        # the objective variable must be fresh: no declared item may involve it
-        for it in ctx.exp_cons:
-            if it["source"] == "metric":
-                continue
+        # the objective variable must be fresh: no declared or generated item other than the metric rows involves it
+        objleaf = getattr(rec.pep, "objective", None)
+        if objleaf is not None:
+            for it in ctx.exp_cons:
+                if it["source"] == "metric":
+                    continue
+                e = it["obj"].expression
+                if e is objleaf or any(k is objleaf for k in e.decomposition_dict):
+                    world.violation("O-DELIVERY", "objective-variable-used-by-another-row:" + it["source"],
+                                    {"label": it["label"]})
+                    break
     for it in ctx.missing:
         if it["source"] == "metric":
             continue
@@ -830,6 +837,14 @@ def check_primal(world, rec):
             ov = float(obj.eval())
             if abs(ov - min(mets)) > tol:
                 world.violation("O-PRIMAL", "objective-is-not-the-smallest-metric", {"objective": ov, "metrics": mets})
+    # the primal value never exceeds the dual bound by more than solver tolerance
+    mode = (rec.op.get("cfg") or {}).get("mode", "dual")
+    a1 = rec.caps[0].answer
+    if mode == "dual" and rec.result is not None and a1.obj is not None and a1.mode == "real":
+        gap = a1.obj - float(rec.result)
+        world.residual("O-PRIMAL/gap", max(0.0, gap) / (1.0 + abs(a1.obj)))
+        if gap > tol:
+            world.violation("O-PRIMAL", "primal-value-exceeds-dual-bound", {"primal": a1.obj, "dual": float(rec.result)})
     world.residual("O-PRIMAL", worst)
     world.reach["primal_checked"] += 1
 
